@@ -52,6 +52,16 @@ func (v *BlockValidator) ValidateBody(block *types.Block) error {
 	// Check whether the block's known, and if not, that it's linkable
 	//block.SetVersion(v.config.GetBlockVersion(block.Number()))
 	if v.bc.HasBlockAndState(block.Hash(), block.NumberU64()) {
+		// A known block may still be reimported (after a rollback, or when it is
+		// heavier than the head): the copy handed in must then be that very block,
+		// not a body that merely arrived under its header.
+		header := block.Header()
+		if hash := types.CalcUncleHash(block.Uncles()); hash != header.UncleHash {
+			return fmt.Errorf("uncle root hash mismatch: have %x, want %x", hash, header.UncleHash)
+		}
+		if hash := types.DeriveSha(block.Transactions()); hash != header.TxHash {
+			return fmt.Errorf("transaction root hash mismatch: have %x, want %x", hash, header.TxHash)
+		}
 		return ErrKnownBlock
 	}
 	if !v.bc.HasBlockAndState(block.ParentHash(), block.NumberU64()-1) {
